@@ -439,6 +439,9 @@ func TakeWhileIWithContext[T any](predicate func(ctx context.Context, item T, in
 					func(ctx context.Context, err error) {
 						if !skipping {
 							destination.ErrorWithContext(ctx, err)
+						} else {
+							// already completed: surface the late error like a closed subscriber does
+							OnDroppedNotification(ctx, NewNotificationError[T](err))
 						}
 					},
 					func(ctx context.Context) {
